@@ -139,25 +139,7 @@ def run(R, env):
     addr_fns = [k for k in prog.bodies if prog.bodies[k].crate == CRATE and role_of(prog, k) == "address"]
     R.floor("C14.R2", "address validators", len(addr_fns), 1)
     for k in addr_fns:
-        c = Ctx(prog.body(k))
-        dec = lambda s: s[0] == "call" and s[1].startswith("bech32::decode") and s[2][0][0] == "param" and s[2][0][1] == 1
-        found = []
-        ok, off = guarded(c, Guard("decodes", subject=dec), prog, 2, found)
-        R.ob("C14.R2", "address:decode-must-succeed", ok, "an undecodable address is accepted: %s" % (off,), fn=k, found=found)
-
-        def pfx(t):
-            if t[0] == "call" and t[1] in EQ:
-                a, b_ = t[2]
-                for x, y in ((a, b_), (b_, a)):
-                    if x[0] == "field" and x[2] == "0" and x[1][0] == "payload" and dec(shared.unwrap_payload(x[1])) and y[0] == "param" and y[1] == 2:
-                        return EQ[t[1]]
-            return None
-
-        found = []
-        ok, off = guarded(c, Guard("prefix", boolean=pfx), prog, 2, found)
-        R.ob("C14.R2", "address:prefix-must-match", ok, "an address under another prefix is accepted: %s" % (off,), fn=k, found=found)
-        oks = [e for e in exits(c) if e["kind"] == "ok"]
-        R.ob("C14.R2", "address:returns-input", bool(oks) and all(e["term"][3][0][2][0] == "param" and e["term"][3][0][2][1] == 1 for e in oks), "the validated address returned is not the input string", fn=k)
+        shared.address_validator_shape(R, prog, k, "C14.R2")
     for k in [k for k in prog.bodies if prog.bodies[k].crate == CRATE and role_of(prog, k) == "denom"]:
         c = Ctx(prog.body(k))
         ln = lambda t: t[0] == "call" and t[1] in ("std::string::String::len", "core::str::len") and t[2][0][0] == "param"
